@@ -1,6 +1,8 @@
 (* C11 - a pairing never holds more than one open connection and leaks none.
    Statements only.  Same model and same quantification as C10 (Model/Reconnect.v,
-   [reachable], [advance]); [opn s] is the accessory-side set of open connections. *)
+   [reachable], [advance]); [opn s] is the accessory-side set of open connections.
+   The histories include pair-verify requests that stay IN FLIGHT for any time (phase [PVerify]:
+   the connection is open and current but not secure), cut off by the 30 s request timeout. *)
 From Coq Require Import List NArith Arith Bool Lia.
 From AHK Require Import Model.Reconnect Proofs.Reconnect.
 Import ListNotations.
@@ -21,12 +23,50 @@ Theorem failed_setup_closed : forall s f t, reachable s ->
     opn s' = [] /\ cur s' = None.
 Proof. intros s f t H. cbv zeta. exact (inv_failed_closed _ (reachable_advance_inv _ f t H)). Qed.
 
-(* a connection is open only while it is in use: secure, and the connector is done or inside
-   the re-subscribe round trip of that very connection *)
+(* a connection is open only while it is in use: either secure, and the connector is done or inside
+   the re-subscribe round trip of that very connection; or not yet secure, and the connector is waiting
+   for the pair-verify answer on that very connection *)
 Theorem open_only_when_in_use : forall s f t c, reachable s ->
     let s' := advance f t s in
-    cur s' = Some c -> secure s' = true /\ (ph s' = PDoneOk \/ exists u, ph s' = PPost c u).
-Proof. intros s f t c H. cbv zeta. exact (i_cur _ (reachable_advance_inv _ f t H) c). Qed.
+    cur s' = Some c ->
+    (secure s' = true /\ (ph s' = PDoneOk \/ exists u, ph s' = PPost c u)) \/
+    (secure s' = false /\ exists h fh r u, ph s' = PVerify c h fh r u /\ In h (hosts s') /\ length (excl s') <= fh).
+Proof. intros s f t c H. cbv zeta. intros Hc. exact (proj2 (inv_cur_cases _ c (reachable_advance_inv _ f t H) Hc)). Qed.
+
+(* while a pair-verify request is in flight, its connection is the ONLY open one, it is the current
+   one, and the pairing does not count as connected *)
+Theorem verify_in_flight_only_open : forall s f t c h fh r u, reachable s ->
+    let s' := advance f t s in
+    ph s' = PVerify c h fh r u ->
+    opn s' = [c] /\ cur s' = Some c /\ secure s' = false /\ connected s' = false.
+Proof. intros s f t c h fh r u H. cbv zeta. exact (inv_verify_open _ c h fh r u (reachable_advance_inv _ f t H)). Qed.
+
+(* ... and it is closed when the verify fails: by the 30 s request timeout (r = None) or a failure of
+   class "other" (then the connector sleeps), by an authentication error (then the connector ends), *)
+Theorem failed_verify_closed : forall s f t c h fh r u, reachable s ->
+    let s' := advance f t s in
+    ph s' = PVerify c h fh r u ->
+    match r with None => True | Some (k, _) => vclass_of k = KOther end ->
+    let s'' := fire (TPhase u) s' in
+    opn s'' = [] /\ cur s'' = None /\ ntasks s'' = 1 /\ excl s'' = [] /\
+    exists w, ph s'' = PSleep w /\ (u + 3072 <= w <= u + SIXTY_S)%N.
+Proof. intros s f t c h fh r u H. cbv zeta. exact (verify_failed_closed _ c h fh r u (reachable_advance_inv _ f t H)). Qed.
+
+Theorem auth_verify_closed : forall s f t c h fh d u k, reachable s ->
+    let s' := advance f t s in
+    ph s' = PVerify c h fh (Some (k, d)) u -> vclass_of k = KAuth ->
+    let s'' := fire (TPhase u) s' in
+    opn s'' = [] /\ cur s'' = None /\ ntasks s'' = 0 /\ ph s'' = PDoneAuth /\ waiters s'' = [].
+Proof. intros s f t c h fh d u k H. cbv zeta. exact (verify_auth_closed _ c h fh d u k (reachable_advance_inv _ f t H)). Qed.
+
+(* ... and by a wrong-pairing-id answer BEFORE the connector moves on, be it to the next address without
+   back-off (cont) or to the back-off sleep: the next attempt starts from a state with nothing open *)
+Theorem wrongid_verify_closed_first : forall cont s c h fh d k,
+    cur s = Some c -> opn s = [c] -> vclass_of k = KWrong ->
+    exists s1, opn s1 = [] /\ cur s1 = None /\
+      (verify_done cont fh h c (Some (k, d)) s = cont (set_imm (S (imm s1)) s1) \/
+       verify_done cont fh h c (Some (k, d)) s = backoff s1).
+Proof. exact verify_wrongid_closed. Qed.
 
 (* loss of an abandoned connection (one that is no longer open) changes nothing but the log *)
 Theorem stale_loss_harmless : forall s c, mem_nat c (opn s) = false ->
@@ -60,12 +100,29 @@ Qed.
    the last connection open; the delayed loss of the abandoned ones changes nothing *)
 Example c11_nonvacuous :
   let s := run [0] false [DConnect 0; DConnect 0; DConnect 0; DConnect 0]
-               [(VBadTag, 0%N); (VGarbage, 0%N); (VHttp4xx, 0%N); (VOk, 0%N)]
+               [(VBadTag, 0%N, 0%N); (VGarbage, 0%N, 0%N); (VHttp4xx, 0%N, 0%N); (VOk, 0%N, 0%N)]
                [(1%N, Ensure 1); (20001%N, Drop 1); (20003%N, DropReset 2)] 30001%N in
   opn s = [4] /\ connected s = true /\ count_dials (trace s) = 4 /\ tie s = false.
 Proof. vm_compute. repeat split; reflexivity. Qed.
 
+(* non-vacuity of the in-flight window: a slow wrong-id answer on address 0, then a request on address 1
+   that is never answered (closed by the timeout), then close() while the third request is in flight *)
+Example c11_in_flight_nonvacuous :
+  let sc := run [0; 1] false [DConnect 0; DConnect 1; DConnect 0]
+               [(VWrongId, 0%N, 5000%N); (VOk, 0%N, 900000%N); (VOk, 0%N, 20000%N)] in
+  let mid := sc [(1%N, Ensure 1)] 4001%N in
+  let s := sc [(1%N, Ensure 1); (135001%N, Close)] 140001%N in
+  ph mid = PVerify 1 0 0 (Some (VWrongId, 0%N)) 5001%N /\ opn mid = [1] /\
+  In (5001%N, EvClosed 1) (trace s) /\ In (5001%N, EvOpened 2 1) (trace s) /\
+  In (127881%N, EvClosed 2) (trace s) /\ In (130953%N, EvOpened 3 0) (trace s) /\
+  In (135001%N, EvClosed 3) (trace s) /\ opn s = [] /\ ph s = PCancelled /\ tie s = false.
+Proof. vm_compute. repeat split; auto 20. Qed.
+
 Print Assumptions open_le_1.
+Print Assumptions verify_in_flight_only_open.
+Print Assumptions failed_verify_closed.
+Print Assumptions auth_verify_closed.
+Print Assumptions wrongid_verify_closed_first.
 Print Assumptions failed_setup_closed.
 Print Assumptions open_only_when_in_use.
 Print Assumptions stale_loss_harmless.
